@@ -78,6 +78,15 @@ CHECKS = {
              "their documented target must be rejected, documented ones accepted.",
         note=NOTE, technique="exhaustive path enumeration of the option state graph, metamorphic token-equality oracle on the real macro",
         ref="DESIGN.md §3 C17"),
+    "C18": dict(
+        text="Every placement word of <= 2 (quick) / <= 3 (thorough) (site, attribute) pairs per input mode - sites: above / below entrait, on a plain / "
+             "destructured / wildcard parameter, on the module, on a module fn, on the trait, on a trait method, on the impl block, on an impl-block fn; "
+             "attributes: doc, allow, inline, must_use, cfg(all()), cfg(any()) (with a body and return type that cannot compile), an identity proc-macro "
+             "and a counting proc-macro - is compiled and run. Generated traits/impls/methods may carry nothing from the user except mirrored cfg "
+             "(mod / impl-block fns) or all method attributes (entraited traits); generated signatures carry no parameter attributes; programs with "
+             "cfg(any()) members compile and the remaining methods work; the counting macro sees each function exactly once per compiler process.",
+        note=NOTE, technique="bounded-exhaustive enumeration of attribute placements on the real macro; structural view + executed client + helper-macro invocation log",
+        ref="DESIGN.md §3 C18"),
     "C19": dict(
         text="15 programs (every input mode x delegation kind, sync and async, by-value, concrete, no_deps, static/dyn targets, async_trait), all invoked by "
              "absolute path with no imports, x {empty scope, each of 20 local decoy items alone (traits Send/Sync/Sized/Future/AsRef/Borrow/Unpin, structs "
